@@ -1791,3 +1791,85 @@ func setKeysStr(m map[string]string) []string {
 	sort.Strings(ks)
 	return ks
 }
+
+// ---------------------------------------------------------------- last fallible step (C02)
+
+// checkLastFallibleStep: in `fn`, once the call of `step` has succeeded nothing can fail any more — every return
+// reachable from the call's no-error edge returns a nil error. generateSecurities registers schemes in the
+// generator-wide cache while their Go types go to the per-operation type storage, which is dropped when the operation
+// fails; a step that can still fail afterwards (and be skipped under ignore_not_implemented) leaves a cached scheme
+// whose type is declared nowhere, and the written package does not compile.
+func checkLastFallibleStep(c *core.Ctx, r *core.Rule, prog *core.Prog, pkgPath, fnName, stepSuffix string) {
+	fn := prog.Func(pkgPath, fnName)
+	if fn == nil {
+		r.Undecided("anchor:"+fnName, "-", fnName+" not found")
+		return
+	}
+	found := 0
+	for _, call := range core.Calls(fn) {
+		cv, ok := call.(*ssa.Call)
+		if !ok || !strings.HasSuffix(core.CalleeName(call.Common()), stepSuffix) {
+			continue
+		}
+		found++
+		// the no-error edge of the test of this call's error result
+		var okEdge *ssa.BasicBlock
+		for _, ref := range *cv.Referrers() {
+			ee, ok := ref.(*ssa.Extract)
+			if !ok || !core.IsErrorType(ee.Type()) {
+				continue
+			}
+			for _, u := range *ee.Referrers() {
+				bo, ok := u.(*ssa.BinOp)
+				if !ok || bo.Op != token.NEQ || !core.IsNilConst(bo.Y) {
+					continue
+				}
+				for _, bu := range *bo.Referrers() {
+					if iff, ok := bu.(*ssa.If); ok {
+						okEdge = iff.Block().Succs[1]
+					}
+				}
+			}
+		}
+		key := "last-fallible-step:" + fnName + ":" + stepSuffix[strings.LastIndexByte(stepSuffix, '.')+1:]
+		if okEdge == nil {
+			r.Undecided(key, c.Pos(call.Pos()), "the error result of the step is not tested with `err != nil`")
+			continue
+		}
+		seen := map[*ssa.BasicBlock]bool{okEdge: true}
+		stack := []*ssa.BasicBlock{okEdge}
+		var bad ssa.Instruction
+		nRet := 0
+		for len(stack) > 0 && bad == nil {
+			b := stack[len(stack)-1]
+			stack = stack[:len(stack)-1]
+			for _, in := range b.Instrs {
+				if ret, ok := in.(*ssa.Return); ok {
+					nRet++
+					for _, res := range ret.Results {
+						if core.IsErrorType(res.Type()) && !core.IsNilConst(res) {
+							bad = ret
+						}
+					}
+				}
+			}
+			for _, s := range b.Succs {
+				if !seen[s] {
+					seen[s] = true
+					stack = append(stack, s)
+				}
+			}
+		}
+		switch {
+		case bad != nil:
+			r.Fail(key, c.Pos(bad.Pos()), fmt.Sprintf("%s can still fail after %s succeeded: the schemes that call registered in the generator-wide cache outlive the operation's type storage when the operation is skipped, and a later operation gets a scheme whose type is declared nowhere (the package does not compile)", fnName, stepSuffix[strings.LastIndexByte(stepSuffix, '.')+1:]))
+		case nRet == 0:
+			r.Undecided(key, c.Pos(call.Pos()), "no return reachable after the step")
+		default:
+			r.Pass(fmt.Sprintf("%s: nothing can fail after %s", fnName, stepSuffix[strings.LastIndexByte(stepSuffix, '.')+1:]))
+		}
+	}
+	if found == 0 {
+		r.Undecided("anchor:"+fnName+":"+stepSuffix, c.Pos(fn.Pos()), "no call of the step found")
+	}
+}
